@@ -441,9 +441,9 @@ class C11(PropBase):
         ids = sorted(set(st.x["ids"]))[-12:] + [max(st.x["ids"] + [0]) + 1]
         for mid in ids:
             pc = w.probe_in_progress("c", mid)
-            ps = w.probe_in_progress("s", mid)
+            ps = w.probe_in_progress("s", mid, c.model.kinds.get(mid))
             st.hit("in_progress_probe_ids")
-            if pc != ps:
+            if ps is not None and pc != ps:
                 raise Violation(P, "in-progress-disagreement", "all bytes delivered: id %d is %s on the client and %s on the server" % (
                     mid, "in progress" if pc else "not in progress", "in progress" if ps else "not in progress"))
             if pc and c.model.kinds.get(mid) == "SearchRequest":
